@@ -351,9 +351,9 @@ impl Engine for C20 {
     }
     fn runs(&self, quick: bool) -> u64 {
         if quick {
-            3_000
+            20_000
         } else {
-            120_000
+            300_000
         }
     }
 
